@@ -3,21 +3,689 @@ package c07
 import (
 	"encoding/json"
 	"fmt"
+	"math/rand"
 	"os"
 	"path/filepath"
+	"sort"
 	"strings"
+	"sync"
 	"time"
 
 	"github.com/ProtonMail/gluon/verif/pkg/ev"
+	"github.com/ProtonMail/gluon/verif/pkg/tlc"
 )
 
-var allOps = []string{"APPEND", "COPY", "MOVE", "EXPUNGE", "STORE", "CREATE", "DELETE", "RENAME", "SUBSCRIBE", "UNSUBSCRIBE",
-	"CONN_CREATE", "CONN_UPDATE", "CONN_DELETE", "RELEASE"}
+const recoveryBox = "Recovered Messages"
+
+// ---- what TLC prints ------------------------------------------------------------------------------
+
+type sEnt struct {
+	ID  string `json:"id"`
+	UID int    `json:"uid"`
+	Del bool   `json:"del"`
+}
+
+type sBox struct {
+	Sub  bool   `json:"sub"`
+	Msgs []sEnt `json:"msgs"`
+	UIDV string `json:"uidv"`
+	Next int    `json:"next"`
+}
+
+type sRow struct {
+	Marked bool     `json:"marked"`
+	Flags  []string `json:"flags"`
+}
+
+type sState struct {
+	Boxes map[string]sBox `json:"boxes"`
+	Rows  map[string]sRow `json:"rows"`
+	Dsubs []string        `json:"dsubs"`
+	Files []string        `json:"files"`
+}
+
+// tcase is one (operation, step, kill|error) triple (kind "none": clean restart after the operation).
+type tcase struct {
+	Op     string   `json:"op"`
+	K      int      `json:"k"`
+	Kind   string   `json:"kind"`
+	NSteps int      `json:"nsteps"`
+	Steps  []string `json:"steps"` // the steps reached, in order (a faulted step is reached, not executed)
+	Ack    string   `json:"ack"`
+	Live   struct {
+		None  bool                `json:"none"`
+		Boxes map[string]sBox     `json:"boxes"`
+		Dsubs []string            `json:"dsubs"`
+		Flags map[string][]string `json:"flags"`
+	} `json:"live"`
+	Allowed []sState          `json:"allowed"`
+	Pre     sState            `json:"pre"`
+	Post    sState            `json:"post"`
+	Content map[string]string `json:"content"`
+}
+
+func (c *tcase) sig() string { return fmt.Sprintf("%s/%d/%s", c.Op, c.K, c.Kind) }
+
+func (c *tcase) stepName() string {
+	if c.Kind == "none" {
+		return "clean-restart"
+	}
+	if c.K > c.NSteps {
+		return "after-ack"
+	}
+	if c.K >= 1 && c.K <= len(c.Steps) {
+		return c.Steps[c.K-1]
+	}
+	return "?"
+}
+
+// ---- projection of both sides to one comparable form -----------------------------------------------
+
+type cMsg struct {
+	UID     int    `json:"uid"`
+	Content string `json:"content"`
+	Flags   string `json:"flags"`
+}
+
+type cBox struct {
+	UIDV string `json:"uidv"`
+	Next int    `json:"next"`
+	Msgs []cMsg `json:"msgs"`
+}
+
+type canon struct {
+	Boxes   map[string]cBox `json:"boxes"`
+	Lsub    []string        `json:"lsub"`
+	Rows    []string        `json:"rows,omitempty"`    // "<content of the file | nofile>|<marked>" per message row
+	Orphans []string        `json:"orphans,omitempty"` // content of files without a row
+}
+
+func (c canon) String() string { b, _ := json.Marshal(c); return string(b) }
+
+// canonSpec projects an abstract state. withDisk = include rows and files; withRecovery = include the recovery mailbox.
+func canonSpec(boxes map[string]sBox, rows map[string]sRow, dsubs, files []string, content map[string]string, withDisk, withRecovery bool) canon {
+	out := canon{Boxes: map[string]cBox{}, Lsub: []string{}}
+	for name, b := range boxes {
+		if name == recoveryBox && (!withRecovery || len(b.Msgs) == 0) {
+			continue // gluon hides the recovery mailbox while it is empty
+		}
+		cb := cBox{UIDV: b.UIDV, Next: b.Next, Msgs: []cMsg{}}
+		for _, e := range b.Msgs {
+			fl := append([]string{}, rows[e.ID].Flags...)
+			if e.Del {
+				fl = append(fl, "Deleted")
+			}
+			sort.Strings(fl)
+			cb.Msgs = append(cb.Msgs, cMsg{UID: e.UID, Content: content[e.ID], Flags: strings.Join(fl, ",")})
+		}
+		out.Boxes[name] = cb
+		if b.Sub {
+			out.Lsub = append(out.Lsub, name)
+		}
+	}
+	out.Lsub = append(out.Lsub, dsubs...)
+	sort.Strings(out.Lsub)
+	if withDisk {
+		have := map[string]bool{}
+		for _, f := range files {
+			have[f] = true
+		}
+		for id, r := range rows {
+			c := "nofile"
+			if have[id] {
+				c = content[id]
+			}
+			out.Rows = append(out.Rows, fmt.Sprintf("%s|%v", c, r.Marked))
+		}
+		for _, f := range files {
+			if _, ok := rows[f]; !ok {
+				out.Orphans = append(out.Orphans, content[f])
+			}
+		}
+		sort.Strings(out.Rows)
+		sort.Strings(out.Orphans)
+	}
+	return out
+}
+
+func (c *tcase) canonState(s *sState) canon {
+	return canonSpec(s.Boxes, s.Rows, s.Dsubs, s.Files, c.Content, true, true)
+}
+
+// canonObs projects what the real server showed. uidvName: UIDVALIDITY values of the prepared state.
+func canonObs(o *obsState, uidvName map[int]string, withDisk, withRecovery bool) canon {
+	out := canon{Boxes: map[string]cBox{}, Lsub: []string{}}
+	for name, b := range o.Boxes {
+		if name == recoveryBox && !withRecovery {
+			continue
+		}
+		cb := cBox{Next: b.Next, Msgs: []cMsg{}}
+		switch {
+		case name == recoveryBox:
+			cb.UIDV = "any"
+		case uidvName[b.UIDV] != "":
+			cb.UIDV = "v:" + uidvName[b.UIDV]
+		case b.UIDV > 1000:
+			cb.UIDV = "new" // the generator of the process that ran the operation starts above 1000
+		default:
+			cb.UIDV = fmt.Sprintf("unknown:%d", b.UIDV)
+		}
+		for _, m := range b.Msgs {
+			var fl []string
+			for _, f := range m.Flags {
+				fl = append(fl, strings.TrimPrefix(f, `\`))
+			}
+			sort.Strings(fl)
+			cb.Msgs = append(cb.Msgs, cMsg{UID: m.UID, Content: m.Content, Flags: strings.Join(fl, ",")})
+		}
+		out.Boxes[name] = cb
+	}
+	for _, n := range o.Lsub {
+		if n == recoveryBox && !withRecovery {
+			continue
+		}
+		out.Lsub = append(out.Lsub, n)
+	}
+	sort.Strings(out.Lsub)
+	if withDisk {
+		for _, r := range o.Rows {
+			c := r.File
+			if c == "" {
+				c = "nofile"
+			}
+			out.Rows = append(out.Rows, fmt.Sprintf("%s|%v", c, r.Marked))
+		}
+		for _, c := range o.Orphans {
+			out.Orphans = append(out.Orphans, c)
+		}
+		sort.Strings(out.Rows)
+		sort.Strings(out.Orphans)
+	}
+	return out
+}
+
+// ---- the check ---------------------------------------------------------------------------------------
+
+type drv struct {
+	r        *ev.Run
+	base     string
+	setupDir string
+	userID   string
+	uidvName map[int]string
+	mu       sync.Mutex
+	counts   map[string]int64
+	seq      int
+	idem     bool // also restart a second time and require the same state
+}
+
+func (d *drv) add(k string) {
+	d.mu.Lock()
+	d.counts[k]++
+	d.mu.Unlock()
+}
+
+func (d *drv) violate(c *tcase, class, detail string) {
+	key := fmt.Sprintf("%s/%s/%s/%s", c.Op, c.stepName(), c.Kind, class)
+	what := "process killed"
+	switch c.Kind {
+	case "error":
+		what = "the call returns an error"
+	case "none":
+		what = "no fault, clean shutdown and restart"
+	}
+	d.r.Violate(key, fmt.Sprintf("operation %s, step %d of %d (%s): %s\n%s", c.Op, c.K, c.NSteps, c.stepName(), what, detail),
+		map[string]interface{}{"op": c.Op, "k": c.K, "kind": c.Kind})
+}
+
+func tail(s string) string {
+	if len(s) > 3000 {
+		return s[len(s)-3000:]
+	}
+	return s
+}
+
+// remoteFor is what the remote holds once the operation has been issued (the connector is re-created from it).
+func remoteFor(op string) map[string]string {
+	switch op {
+	case "APPEND":
+		return map[string]string{"rm4": "m4"}
+	case "CONN_CREATE":
+		return map[string]string{"c5": "m5"}
+	case "CONN_UPDATE":
+		return map[string]string{"rm1": "m1v2"}
+	}
+	return map[string]string{}
+}
+
+func sameSteps(a, b []string) bool {
+	if len(a) != len(b) {
+		return false
+	}
+	for i := range a {
+		if a[i] != b[i] {
+			return false
+		}
+	}
+	return true
+}
+
+// exec runs one triple on the real server. It returns false when the machinery failed.
+func (d *drv) exec(c *tcase) bool {
+	d.mu.Lock()
+	d.seq++
+	dir := filepath.Join(d.base, fmt.Sprintf("t%d", d.seq))
+	d.mu.Unlock()
+	defer os.RemoveAll(dir)
+	if err := copyDir(d.setupDir, dir); err != nil {
+		d.r.Machinery("%v", err)
+		return false
+	}
+	cfg := wcfg{Mode: "run", Dir: dir, UserID: d.userID, Op: c.Op, Kind: "none"}
+	switch c.Kind {
+	case "kill":
+		if c.K > c.NSteps {
+			cfg.KillAfterAck = true
+		} else {
+			cfg.Kind, cfg.FailAt = "kill", c.K
+		}
+	case "error":
+		cfg.Kind, cfg.FailAt = "error", c.K
+	}
+	res, err := runWorker(cfg, 120*time.Second)
+	if err != nil {
+		d.r.Machinery("%s: worker: %v", c.sig(), err)
+		return false
+	}
+	if f := res.find("fatal"); f != nil {
+		d.r.Machinery("%s: worker: %s\n%s", c.sig(), f.Msg, tail(res.Stderr))
+		return false
+	}
+	if res.TimedOut {
+		d.violate(c, "hang", "the server process did not finish the operation, the observation and its shutdown within 120 s\nsteps reached: "+strings.Join(res.steps(), " "))
+		return true
+	}
+	// the step list of the specification must be what the code really goes through
+	got := res.steps()
+	if c.Kind != "kill" {
+		if dn := res.find("done"); dn != nil {
+			got = dn.Steps
+		}
+	}
+	if !sameSteps(got, c.Steps) {
+		d.r.Machinery("spec out of date: %s: GluonCrash.tla lists the steps\n   %s\nthe code went through\n   %s\n%s", c.sig(),
+			strings.Join(c.Steps, " "), strings.Join(got, " "), tail(res.Stderr))
+		return false
+	}
+	ack := res.find("ack")
+	switch c.Kind {
+	case "kill":
+		if !res.Killed {
+			d.r.Machinery("%s: the worker was to be killed but exited with %d\n%s", c.sig(), res.ExitCode, tail(res.Stderr))
+			return false
+		}
+		if (c.Ack == "OK") != (ack != nil && ack.Status == "OK") {
+			d.r.Machinery("spec out of date: %s: acknowledgement expected %q, worker saw %+v", c.sig(), c.Ack, ack)
+			return false
+		}
+	default:
+		if res.Killed || res.ExitCode != 0 {
+			d.violate(c, "server-died", fmt.Sprintf("the server process died (killed=%v exit=%d)\n%s", res.Killed, res.ExitCode, tail(res.Stderr)))
+			return true
+		}
+		if ack == nil {
+			d.r.Machinery("%s: no acknowledgement event\n%s", c.sig(), tail(res.Stderr))
+			return false
+		}
+		if strings.HasPrefix(ack.Status, "LOST") {
+			d.violate(c, "no-reply", "the client / connector got no completion for the operation: "+ack.Status)
+		} else if ack.Status != c.Ack {
+			d.r.Machinery("spec out of date: %s: the specification says the operation is answered %s, the server answered %s %s", c.sig(), c.Ack, ack.Status, ack.Text)
+			return false
+		}
+		if lv := res.find("live"); lv == nil || lv.Obs == nil {
+			d.r.Machinery("%s: no live observation\n%s", c.sig(), tail(res.Stderr))
+			return false
+		} else if lv.Obs.Err != "" {
+			d.violate(c, "live-observation-failed", "a fresh session on the running server: "+lv.Obs.Err)
+		} else {
+			want := c.canonLive()
+			have := canonObs(lv.Obs, d.uidvName, false, false)
+			if have.String() != want.String() {
+				d.violate(c, "live-state-not-allowed", fmt.Sprintf("after the operation was answered %s a fresh session on the running server sees\n   %s\nthe specification allows\n   %s", ack.Status, have, want))
+			}
+		}
+		if cl := res.find("closed"); cl == nil {
+			d.r.Machinery("%s: the worker did not report its shutdown\n%s", c.sig(), tail(res.Stderr))
+			return false
+		} else if cl.Err != "" {
+			d.violate(c, "close-failed", "clean shutdown after the operation: "+cl.Err)
+		}
+	}
+
+	// restart on what is left and compare
+	var first canon
+	rounds := 1
+	if d.idem {
+		rounds = 2
+	}
+	for round := 0; round < rounds; round++ {
+		ob, err := runWorker(wcfg{Mode: "observe", Dir: dir, UserID: d.userID, Remote: remoteFor(c.Op)}, 120*time.Second)
+		if err != nil {
+			d.r.Machinery("%s: observer: %v", c.sig(), err)
+			return false
+		}
+		if f := ob.find("fatal"); f != nil {
+			if strings.HasPrefix(f.Msg, "server start:") {
+				d.violate(c, "restart-failed", "a server cannot be started on the directories: "+f.Msg)
+				return true
+			}
+			d.r.Machinery("%s: observer: %s\n%s", c.sig(), f.Msg, tail(ob.Stderr))
+			return false
+		}
+		o := ob.find("obs")
+		if ob.TimedOut || o == nil || o.Obs == nil {
+			d.violate(c, "restart-hang-or-crash", fmt.Sprintf("the restarted server did not produce an observation (timeout=%v exit=%d)\n%s", ob.TimedOut, ob.ExitCode, tail(ob.Stderr)))
+			return true
+		}
+		if o.Obs.Err != "" {
+			d.violate(c, "observation-failed", "fresh session after restart: "+o.Obs.Err)
+			return true
+		}
+		have := canonObs(o.Obs, d.uidvName, true, true)
+		if round == 1 {
+			if have.String() != first.String() {
+				d.violate(c, "second-restart-differs", fmt.Sprintf("after a clean shutdown and another restart the state is\n   %s\nit was\n   %s", have, first))
+			}
+			break
+		}
+		first = have
+		d.judge(c, o.Obs, have)
+		if cl := ob.find("closed"); cl == nil || cl.Err != "" {
+			d.violate(c, "close-after-restart-failed", fmt.Sprintf("clean shutdown of the restarted server: %+v\n%s", cl, tail(ob.Stderr)))
+		}
+	}
+	return true
+}
+
+// canonLive projects the state the specification has at the acknowledgement (user mailboxes, subscriptions, flags).
+func (c *tcase) canonLive() canon {
+	rows := map[string]sRow{}
+	for id, fl := range c.Live.Flags {
+		rows[id] = sRow{Flags: fl}
+	}
+	return canonSpec(c.Live.Boxes, rows, c.Live.Dsubs, nil, c.Content, false, false)
+}
+
+// judge compares the state after restart with what TLC allows, most specific complaint first.
+func (d *drv) judge(c *tcase, o *obsState, have canon) {
+	var allowed []string
+	ok := false
+	for i := range c.Allowed {
+		a := c.canonState(&c.Allowed[i])
+		allowed = append(allowed, a.String())
+		if a.String() == have.String() {
+			ok = true
+		}
+	}
+	// the property's own predicates on the real state
+	for name, b := range o.Boxes {
+		if b.Err != "" {
+			d.violate(c, "mailbox-unreadable", fmt.Sprintf("mailbox %q after restart: %s", name, b.Err))
+			return
+		}
+		for _, m := range b.Msgs {
+			if strings.HasPrefix(m.Content, "UNFETCHABLE") || strings.HasPrefix(m.Content, "CORRUPT") {
+				d.violate(c, "listed-not-fetchable", fmt.Sprintf("mailbox %q lists UID %d but BODY[] gives %s\nstate: %s", name, m.UID, m.Content, have))
+				return
+			}
+		}
+	}
+	if ok {
+		return
+	}
+	if len(o.Orphans) > 0 {
+		d.violate(c, "orphan-file", fmt.Sprintf("store files without a message row are left after start-up: %v\nstate   %s\nallowed %s", o.Orphans, have, strings.Join(allowed, "\n        ")))
+		return
+	}
+	for _, r := range o.Rows {
+		if r.Marked {
+			d.violate(c, "marked-row-left", fmt.Sprintf("a message marked for deletion is left after start-up: %+v\nstate   %s\nallowed %s", r, have, strings.Join(allowed, "\n        ")))
+			return
+		}
+	}
+	pre, post := c.canonState(&c.Pre), c.canonState(&c.Post)
+	class := "state-not-allowed"
+	if c.Ack == "OK" && c.Kind != "error" {
+		class = "acknowledged-state-lost"
+	}
+	d.violate(c, class, fmt.Sprintf("a fresh session after restart sees\n   %s\nthe specification allows\n   %s\n(before the operation: %s)\n(after the operation:  %s)", have, strings.Join(allowed, "\n   "), pre, post))
+}
 
 func run(r *ev.Run, tier, replay string) {
 	if os.Getenv("C07_TRACE") != "" {
 		devTrace(r)
 		return
+	}
+	seed := ev.Seed()
+	// ---- the fault plan: every triple, from TLC
+	var cases []*tcase
+	var bad int
+	res, err := tlc.Run(tlc.Options{
+		SpecDir: filepath.Join(ev.Root(), "spec"), Module: "GluonCrash",
+		Cfg:     filepath.Join(ev.Root(), "spec", "cfg", "GluonCrash."+tier+".cfg"),
+		Workers: 4, Timeout: 10 * time.Minute, KeepOutput: true,
+		OnJSON: func(raw []byte) {
+			var c tcase
+			if err := json.Unmarshal(raw, &c); err != nil || c.Op == "" {
+				bad++
+				return
+			}
+			cases = append(cases, &c)
+		},
+	})
+	if err != nil {
+		r.Machinery("tlc: %v", err)
+		return
+	}
+	if res.Violated != "" || res.Error != "" || !res.Finished || res.TimedOut || bad > 0 {
+		r.Machinery("TLC on GluonCrash did not finish cleanly: violated=%q error=%q timeout=%v unparsed=%d\n%s", res.Violated, res.Error, res.TimedOut, bad, tail(res.Output))
+		return
+	}
+	r.Set("states", res.Distinct)
+	r.Set("transitions", res.Generated)
+	r.Set("tlc_wall_s", res.Wall.Seconds())
+	// merge the allowed states of one triple (a triple reached along several behaviours)
+	byKey := map[string]*tcase{}
+	var plan []*tcase
+	for _, c := range cases {
+		if p, ok := byKey[c.sig()]; ok {
+			p.Allowed = append(p.Allowed, c.Allowed...)
+			continue
+		}
+		byKey[c.sig()] = c
+		plan = append(plan, c)
+	}
+	sort.Slice(plan, func(i, j int) bool {
+		a, b := plan[i], plan[j]
+		if a.Op != b.Op {
+			return a.Op < b.Op
+		}
+		if a.Kind != b.Kind {
+			return a.Kind < b.Kind
+		}
+		return a.K < b.K
+	})
+	// every (operation, step, kill) and (operation, step, error) must be in the plan
+	perOp := map[string]*tcase{}
+	for _, c := range plan {
+		perOp[c.Op] = c
+	}
+	for op, c := range perOp {
+		for k := 1; k <= c.NSteps+1; k++ {
+			if byKey[fmt.Sprintf("%s/%d/kill", op, k)] == nil || (k <= c.NSteps && byKey[fmt.Sprintf("%s/%d/error", op, k)] == nil) {
+				r.Machinery("the plan TLC printed lacks a triple of %s at step %d", op, k)
+				return
+			}
+		}
+		if byKey[op+"/0/none"] == nil {
+			r.Machinery("the plan TLC printed lacks the clean restart of %s", op)
+			return
+		}
+	}
+	r.Set("triples_enumerated", int64(len(plan)))
+	r.Set("operations", int64(len(perOp)))
+
+	todo := plan
+	exhaustive := true
+	if replay != "" {
+		b, err := os.ReadFile(replay)
+		if err != nil {
+			r.Machinery("replay: %v", err)
+			return
+		}
+		var rp struct {
+			Replay struct {
+				Op   string `json:"op"`
+				K    int    `json:"k"`
+				Kind string `json:"kind"`
+			} `json:"replay"`
+		}
+		if err := json.Unmarshal(b, &rp); err != nil {
+			r.Machinery("replay file: %v", err)
+			return
+		}
+		c := byKey[fmt.Sprintf("%s/%d/%s", rp.Replay.Op, rp.Replay.K, rp.Replay.Kind)]
+		if c == nil {
+			r.Machinery("replay: the triple %+v is not in the plan", rp.Replay)
+			return
+		}
+		todo, exhaustive = []*tcase{c}, false
+	} else if frac := os.Getenv("C07_FRACTION"); frac != "" {
+		// development aid: a seeded fraction of the plan
+		var f float64
+		fmt.Sscanf(frac, "%g", &f)
+		rnd := rand.New(rand.NewSource(seed))
+		todo = nil
+		for _, c := range plan {
+			if rnd.Float64() < f {
+				todo = append(todo, c)
+			}
+		}
+		exhaustive = false
+	}
+	// the order of execution is seeded (it must not matter)
+	rnd := rand.New(rand.NewSource(seed))
+	rnd.Shuffle(len(todo), func(i, j int) { todo[i], todo[j] = todo[j], todo[i] })
+
+	// ---- the prepared state
+	base, err := os.MkdirTemp("", "verif-c07-")
+	if err != nil {
+		r.Machinery("%v", err)
+		return
+	}
+	defer os.RemoveAll(base)
+	d := &drv{r: r, base: base, setupDir: filepath.Join(base, "setup"), uidvName: map[int]string{}, counts: map[string]int64{}, idem: tier == "thorough" || replay != ""}
+	sres, err := runWorker(wcfg{Mode: "setup", Dir: d.setupDir}, 120*time.Second)
+	if err != nil || sres.find("setup") == nil {
+		r.Machinery("preparing the initial state failed: %v %+v", err, sres)
+		return
+	}
+	se := sres.find("setup")
+	d.userID = se.User
+	for name, b := range se.Obs.Boxes {
+		if d.uidvName[b.UIDV] != "" {
+			r.Machinery("setup: two mailboxes share UIDVALIDITY %d", b.UIDV)
+			return
+		}
+		d.uidvName[b.UIDV] = name
+	}
+	var any *tcase
+	for _, c := range plan {
+		if c.Op != "RELEASE" {
+			any = c
+			break
+		}
+	}
+	if any != nil {
+		want, have := any.canonState(&any.Pre), canonObs(se.Obs, d.uidvName, true, true)
+		if want.String() != have.String() {
+			r.Machinery("spec out of date: the prepared state is not the specification's Base\n   have %s\n   want %s", have, want)
+			return
+		}
+	}
+
+	// ---- execute the plan
+	start := time.Now()
+	par := 4
+	ch := make(chan *tcase)
+	var wg sync.WaitGroup
+	var failed bool
+	var nfail int
+	for w := 0; w < par; w++ {
+		wg.Add(1)
+		go func() {
+			defer wg.Done()
+			for c := range ch {
+				d.mu.Lock()
+				stop := failed
+				d.mu.Unlock()
+				if stop {
+					continue
+				}
+				ok := d.exec(c)
+				d.mu.Lock()
+				if !ok {
+					nfail++
+					failed = nfail >= 12
+				}
+				d.mu.Unlock()
+				if ok {
+					r.Eval(c.sig(), c.Kind != "none")
+					d.add(c.Kind)
+					d.add("op:" + c.Op)
+				}
+			}
+		}()
+	}
+	for _, c := range todo {
+		ch <- c
+	}
+	close(ch)
+	wg.Wait()
+	if nfail > 0 {
+		failed = true
+		exhaustive = false
+	}
+	for i, c := range todo {
+		if i%(len(todo)/6+1) == 0 {
+			r.Sample(map[string]interface{}{"op": c.Op, "step": c.K, "of": c.NSteps, "step_name": c.stepName(), "fault": c.Kind,
+				"steps_reached": c.Steps, "answer": c.Ack, "allowed_after_restart": c.canonState(&c.Allowed[0])})
+		}
+	}
+	r.Set("exec_wall_s", time.Since(start).Seconds())
+	r.Set("executed_by_fault", map[string]int64{"kill": d.counts["kill"], "error": d.counts["error"], "clean_restart": d.counts["none"]})
+	perOpN := map[string]int64{}
+	for k, v := range d.counts {
+		if strings.HasPrefix(k, "op:") {
+			perOpN[strings.TrimPrefix(k, "op:")] = v
+		}
+	}
+	r.Set("executed_by_operation", perOpN)
+	r.Set("traces_validated_against_impl", d.counts["kill"]+d.counts["error"]+d.counts["none"])
+	r.Set("second_restart_checked", d.idem)
+	r.Set("exhaustive", exhaustive && !failed)
+	r.Set("rule", "one case = (operation, step index, kill | error) or the clean restart of an operation, enumerated exhaustively by TLC from the step lists of GluonCrash.tla "+
+		"(step = each message-store call, BEGIN, each method called on the write transaction, COMMIT); every case is executed on the real server in a child process "+
+		"with store and database wrapped through WithStoreBuilder/WithDBClient, the steps actually passed must equal the spec's list, then a fresh server is started on the "+
+		"directories and LIST, LSUB, UIDVALIDITY, UIDNEXT, FETCH 1:* (UID FLAGS BODY.PEEK[]) of every mailbox plus message rows and store files are compared with the state(s) TLC allows; "+
+		"non-trivial = a fault was really injected (everything but the clean restarts); distinct = distinct (operation, step, fault)")
+	r.Assumptions = []string{
+		"a kill is SIGKILL of the server process at a step boundary (between two calls), not a loss of power: the page cache survives, so SQLite's WAL without synchronous=FULL is not exercised",
+		"one fault per operation; faults during start-up recovery itself and double faults are not enumerated",
+		"plain db.Client.Read calls are not step boundaries (they cannot change what is on disk); reads inside a write transaction are",
+		"connector-driven operations run while the only session watches a mailbox they do not touch (a session applies queued updates on its own goroutine, which would make step numbers scheduler-dependent)",
+		"the remote is fixture.VConn re-created with the messages it held; it never rejects a call",
+		"\\Recent is not compared",
 	}
 }
 
@@ -29,65 +697,37 @@ func devTrace(r *ev.Run) {
 	}
 	defer os.RemoveAll(base)
 	setupDir := filepath.Join(base, "setup")
-	t0 := time.Now()
 	res, err := runWorker(wcfg{Mode: "setup", Dir: setupDir}, 60*time.Second)
 	if err != nil || res.find("setup") == nil {
 		r.Machinery("setup failed: %v %+v", err, res)
 		return
 	}
 	se := res.find("setup")
-	b, _ := json.MarshalIndent(se.Obs, "", " ")
-	fmt.Printf("setup %.2fs user=%s\n%s\n", time.Since(t0).Seconds(), se.User, b)
-	ops := allOps
-	if f := os.Getenv("C07_TRACE"); f != "1" {
-		ops = strings.Split(f, ",")
-	}
-	for _, op := range ops {
+	for i, op := range strings.Split(os.Getenv("C07_TRACE"), ",") {
 		fail := 0
 		kind := "none"
-		if i := strings.Index(op, ":"); i > 0 {
-			fmt.Sscanf(op[i+1:], "%d", &fail)
-			op = op[:i]
+		if j := strings.Index(op, ":"); j > 0 {
+			fmt.Sscanf(op[j+1:], "%d", &fail)
+			op = op[:j]
 			kind = "error"
 		}
-		d := filepath.Join(base, "t-"+op)
+		d := filepath.Join(base, fmt.Sprintf("t%d", i))
 		if err := copyDir(setupDir, d); err != nil {
 			r.Machinery("%v", err)
 			return
 		}
-		t0 = time.Now()
 		res, err := runWorker(wcfg{Mode: "run", Dir: d, UserID: se.User, Op: op, Kind: kind, FailAt: fail}, 60*time.Second)
 		if err != nil {
 			r.Machinery("%v", err)
 			return
 		}
-		fmt.Printf("== %s (%.2fs) killed=%v exit=%d\n", op, time.Since(t0).Seconds(), res.Killed, res.ExitCode)
+		fmt.Printf("== %s killed=%v exit=%d\n", op, res.Killed, res.ExitCode)
 		for _, e := range res.Events {
-			switch e.T {
-			case "step":
-				fmt.Printf("  %2d %s\n", e.N, e.Name)
-			case "live":
-				b, _ := json.Marshal(e.Obs)
-				fmt.Printf("  live %s\n", b)
-			default:
-				b, _ := json.Marshal(e)
-				fmt.Printf("  %s\n", b)
-			}
+			b, _ := json.Marshal(e)
+			fmt.Printf("  %s\n", b)
 		}
 		if res.Stderr != "" {
 			fmt.Printf("  stderr: %s\n", res.Stderr)
-		}
-		t0 = time.Now()
-		res, err = runWorker(wcfg{Mode: "observe", Dir: d, UserID: se.User, Remote: map[string]string{"rm4": "m4", "c5": "m5"}}, 60*time.Second)
-		if err != nil {
-			r.Machinery("%v", err)
-			return
-		}
-		if o := res.find("obs"); o != nil {
-			b, _ := json.Marshal(o.Obs)
-			fmt.Printf("  after restart (%.2fs) %s\n", time.Since(t0).Seconds(), b)
-		} else {
-			fmt.Printf("  observer failed: %+v\n", res)
 		}
 	}
 }
